@@ -164,7 +164,7 @@ theorem optimizeUnion_wit_step {cfg : GenCfg} {e : EqEnv} {acc : Accepts} {f : N
     (hr : C08P.rawD cfg (.union ms) = true) (hw : ∀ m ∈ ms, WitM acc u m vs)
     (h : optimizeUnion cfg e (f + 1) ms = .ok t') : Wit acc False u t' vs := by
   obtain ⟨sh, hm⟩ := C08P.rawD_union hr
-  rw [C08P.optimizeUnion_body, C08P.split_optFree cfg.reg ms {} (fun t ht => ⟨C08P.rawD_not_opt (hm t ht), fun k hk => by
+  rw [C08P.optimizeUnion_body _ _ _ _ (C08P.raw_hidden sh hm), C08P.split_optFree cfg.reg ms {} (fun t ht => ⟨C08P.rawD_not_opt (hm t ht), fun k hk => by
     have := hm t ht; rw [hk] at this; simpa [C08P.rawD] using this⟩)] at h
   unfold C08P.unionBody at h
   simp only [List.nil_append, bind, Except.bind] at h
